@@ -270,8 +270,16 @@ func cmdCheck(args []string) int {
 				digs[binary.BigEndian.Uint64(db[i:i+8])] = struct{}{}
 			}
 		}
-		states += len(digs)
-		js["states"] = len(digs)
+		nstates := len(digs)
+		if nstates == 0 { // custom enumerators count their own distinct cases
+			for s := 0; s < shards; s++ {
+				if results[s] != nil {
+					nstates += results[s].States
+				}
+			}
+		}
+		states += nstates
+		js["states"] = nstates
 		js["transitions"] = jt
 		js["exhaustive"] = jexh
 		jobSummaries = append(jobSummaries, js)
